@@ -1,6 +1,7 @@
 import CatiiProofs.StoreProofs
 import CatiiModel.Gen.Purity
 import CatiiModel.Gen.PurityMethods
+import CatiiModel.Gen.DriverGen
 /-!
 # C17 — aggregations are pure: inputs untouched, no hidden state between calls
 
@@ -74,5 +75,11 @@ example : check [.alias "summables" "arr", .fresh "summables", .write "summables
 example : check [.alias "counts" "regions", .write "self.countables", .write "counts"] ["self.countables"] = false := by decide
 example : check [.alias "counts" "self.countables", .write "counts"] ["self.countables"] = false := by decide
 example : Gen.methodProgs.length > 400 := by decide +kernel
+
+
+/-- result regions are allocated by `calculate` itself, once per call, before any task exists, and never re-bound
+(`Gen/DriverGen.lean`, regenerated from the current drivers): nothing of one call can be seen by the next -/
+theorem generated_regions_fresh_per_call :
+    Gen.ccubeDriver.regionsPerCall = true ∧ Gen.xcubeDriver.regionsPerCall = true := by decide
 
 end Catii.C17
